@@ -35,7 +35,7 @@ ASSUMPTIONS = [
 SHARDS = {"quick": 16, "thorough": 16}
 TIMEOUT = {"quick": 900, "thorough": 7200}
 MIN_CASES = {"quick": 4000, "thorough": 80000}
-REQUIRED_COUNTERS = ["events_sent", "listener_logs_checked", "reconnects_checked", "resubscriptions_verified", "raising_listener_isolated", "polling_fallback_histories", "connection_back_events", "reads_with_complete_and_partial_frame", "subscribe_answered_207"]
+REQUIRED_COUNTERS = ["events_sent", "listener_logs_checked", "reconnects_checked", "resubscriptions_verified", "raising_listener_isolated", "polling_fallback_histories", "connection_back_events", "reads_with_complete_and_partial_frame", "subscribe_answered_207", "chunked_events_sent", "coap_event_entries_delivered"]
 
 ALPHABET = "abcwuvlxrDSZOetpfmnjq"
 SUB_A = [(1, 9), (1, 10)]
@@ -118,7 +118,11 @@ class History:
         changes = [(a, i, self.next_value()) for a, i in keys]
         conn = self.current_conn()
         body = conn.event_body(changes)
-        return conn.event(body), {(a, i): {"value": v} for a, i, v in changes}
+        chunks = None
+        if self.rng.random() < 0.3:
+            chunks = self.rng.choice([[len(body)], [7], [1, 30], [16, 3, 200]])
+            self.ctx.count("chunked_events_sent")
+        return conn.event(body, chunks), {(a, i): {"value": v} for a, i, v in changes}
 
     def pick_key(self):
         subs = sorted(self.w.pairing.subscriptions) or [(1, 9)]
@@ -227,6 +231,8 @@ class History:
                         first = first or len(wire)
                         self.sent.append((self.step, exp))
                 cuts = {self.rng.randrange(1, len(wire))}
+                if not conn.secure or style == 0:
+                    cuts.add(len(wire) - self.rng.choice([1, 2, 3]))  # just before / inside the message's final CRLF
                 if first and first + 1 < len(wire):
                     cuts.add(self.rng.randrange(first + 1, len(wire)))
                     self.ctx.count("reads_with_complete_and_partial_frame")
@@ -235,7 +241,10 @@ class History:
                 await conn.send_pieces(wire, sorted(cuts))
             elif a == "f":
                 msg, exp = self.event_for([self.pick_key()])
-                conn.send(msg, frame_sizes=[16])
+                # the accessory's own frame boundaries: 16-byte frames, or one frame that ends 1-3 bytes before the end of the
+                # message (inside / right before its final CRLF), the rest in a second frame
+                k = self.rng.choice([0, 1, 2, 3])
+                conn.send(msg, frame_sizes=[16] if k == 0 or len(msg) - k > 1024 else [len(msg) - k])
                 self.sent.append((self.step, exp))
             elif a == "m":
                 keys = sorted(w.pairing.subscriptions)[:2] or [(1, 9)]
@@ -395,8 +404,12 @@ def run(ctx) -> None:
         rng = ctx.rng("C12.random")
         for k in range(ctx.pick(3000, 200000) // ctx.nshards):
             n = rng.randint(10, 40)
-            actions = "".join(rng.choice("aabcuvllxrDDSZOeeetpfmnjq") for _ in range(n))
+            actions = "".join(rng.choice("aabcwuvllxrDDSZOeeetpfmnjq") for _ in range(n))
             await run_one(ctx, actions, ("rand", ctx.shard, k))
+        # the delivery clause on the CoAP transport: notifications with several entries (a characteristic may repeat)
+        from vf import sim_coap
+
+        await sim_coap.c12_part(ctx)
 
     vloop.run(main())
 
@@ -404,4 +417,10 @@ def run(ctx) -> None:
 def replay(ctx, d) -> None:
     from vf import vloop
 
+    if d.get("t") == "coap-events":
+        from vf import sim_coap
+
+        ctx.shard, ctx.nshards = 0, 1
+        vloop.run(sim_coap.c12_part(ctx))
+        return
     vloop.run(run_one(ctx, d["actions"], "replay"))
